@@ -28,10 +28,11 @@ struct Case {
     shared: (usize, usize), // count, site
     work: Vec<(usize, Vec<POp>)>,
     sched: Option<Vec<usize>>,
+    storm: Option<(usize, usize)>, // threads, records per thread on one shared span
 }
 
 fn parse_case(lines: &[String]) -> Option<Case> {
-    let mut c = Case { sites: vec![], filter: Filt::All, shared: (0, 0), work: vec![], sched: None };
+    let mut c = Case { sites: vec![], filter: Filt::All, shared: (0, 0), work: vec![], sched: None, storm: None };
     for l in lines {
         let mut t = Toks::new(l);
         match t.next()? {
@@ -57,6 +58,7 @@ fn parse_case(lines: &[String]) -> Option<Case> {
             }
             "sched" => c.sched = Some(t.rest().iter().filter_map(|x| x.parse().ok()).collect()),
             "free" => c.sched = None,
+            "storm" => c.storm = Some((t.num()?, t.num()?)),
             _ => return None,
         }
     }
@@ -64,7 +66,7 @@ fn parse_case(lines: &[String]) -> Option<Case> {
 }
 
 fn setup(c: &Case) -> (Dispatch, Vec<tracing_capture::SharedStorage>, Vec<Option<(tracing_core::span::Id, usize)>>) {
-    let cfg = Config { layers: vec![c.filter.clone()], global: None, pass: vec![] };
+    let cfg = Config { layers: vec![c.filter.clone()], global: None, pass: vec![], per_layer: false };
     let (dispatch, storages) = cfg.build();
     let mut main = Runner::new(&c.sites);
     dispatcher::with_default(&dispatch, || {
@@ -203,6 +205,37 @@ fn run_free(c: &Case, out: &mut Outcome) {
         dump(&lock, &c.sites, "L0 ", &mut conc, &mut fails);
         out.fails.extend(fails.into_iter().map(|f| f.replacen("C17", "C19 (C17 law)", 1)));
     }
+    // shared spans: every thread records only its own field `t<tid>` on them, so the final value of
+    // that field is the last one the thread recorded, whatever the other threads did meanwhile
+    {
+        let lock = storages[0].lock();
+        let shared_spans: Vec<_> = lock.all_spans().filter(|s| s.metadata().name() == "shared").collect();
+        if shared_spans.len() == c.shared.0 {
+            for (tid, ops) in &c.work {
+                let hs = shared_handles(ops, c.shared.0);
+                for (h, span) in shared_spans.iter().enumerate() {
+                    let mut want: Option<crate::proto::Val> = None;
+                    for op in ops {
+                        if let POp::Rec { s, vals } = op {
+                            if hs.get(*s).copied().flatten() == Some(h) {
+                                for (i, tok) in vals {
+                                    if *i == *tid {
+                                        if let Some(v) = super::values::expected_capture(tok) {
+                                            want = Some(v);
+                                        }
+                                    }
+                                }
+                            }
+                        }
+                    }
+                    let got = span.value(&format!("t{tid}")).map(crate::proto::Val::from_real);
+                    if got != want {
+                        out.fails.push(format!("C19 shared span {h}: field t{tid} is {got:?} after all threads joined, thread {tid} last recorded {want:?} (lost or stale update)"));
+                    }
+                }
+            }
+        }
+    }
     let mut total_spans = 0usize;
     for (tid, ops) in &c.work {
         // single-threaded reference: the same shared spans, then this thread's program alone
@@ -240,6 +273,82 @@ fn run_free(c: &Case, out: &mut Outcome) {
     }
 }
 
+/// For every handle index a thread's program uses: the shared span it refers to, if any (handles
+/// `0..n_shared` are the shared spans; `new` and `cln` append handles).
+fn shared_handles(ops: &[POp], n_shared: usize) -> Vec<Option<usize>> {
+    let mut hs: Vec<Option<usize>> = (0..n_shared).map(Some).collect();
+    for op in ops {
+        match op {
+            POp::New { .. } => hs.push(None),
+            POp::Cln(s) => {
+                let v = hs.get(*s).copied().flatten();
+                hs.push(v);
+            }
+            _ => {}
+        }
+    }
+    hs
+}
+
+/// `storm n m`: n threads record m times each on one shared span, every thread its own field; after
+/// each of its records a thread reads the storage and must find exactly what it just recorded (no
+/// other thread writes that field), and at the end every field holds its last value.
+fn run_storm(c: &Case, n: usize, m: usize, out: &mut Outcome) {
+    let site = Site { is_span: true, level: 2, name: "shared".into(), target: "app".into(), module_path: None, file: None, line: None, fields: (0..n).map(|i| format!("t{i}")).collect() };
+    let meta = crate::dynsite::metadata_for(&site);
+    let cfg = Config { layers: vec![c.filter.clone()], global: None, pass: vec![], per_layer: false };
+    let (dispatch, storages) = cfg.build();
+    let storage = storages[0].clone();
+    let span = dispatcher::with_default(&dispatch, || {
+        let vs = meta.fields().value_set(&[]);
+        tracing::Span::new_root(meta, &vs)
+    });
+    let bad = std::sync::Mutex::new(Vec::<String>::new());
+    let barrier = std::sync::Barrier::new(n);
+    thread::scope(|scope| {
+        for tid in 0..n {
+            let (dispatch, span, storage, bad, barrier) = (dispatch.clone(), span.clone(), storage.clone(), &bad, &barrier);
+            scope.spawn(move || {
+                let field = crate::dynsite::nth_field(meta, tid);
+                let name = format!("t{tid}");
+                barrier.wait();
+                dispatcher::with_default(&dispatch, || {
+                    for i in 1..=m as u64 {
+                        let value: &dyn tracing_core::field::Value = &i;
+                        let arr = [(&field, Some(value))];
+                        let vs = meta.fields().value_set(&arr);
+                        span.record_all(&vs);
+                        let seen = {
+                            let lock = storage.lock();
+                            lock.all_spans().next().and_then(|s| s.value(&name).and_then(tracing_tunnel::TracedValue::as_uint))
+                        };
+                        if seen != Some(u128::from(i)) {
+                            let mut b = bad.lock().unwrap();
+                            if b.len() < 3 {
+                                b.push(format!("C19 storm: thread {tid} recorded {name}={i} on the shared span and then read {seen:?} (lost or stale update)"));
+                            }
+                            return;
+                        }
+                    }
+                });
+                barrier.wait();
+            });
+        }
+    });
+    out.fails.extend(bad.into_inner().unwrap());
+    let lock = storage.lock();
+    if let Some(s) = lock.all_spans().next() {
+        for tid in 0..n {
+            let got = s.value(&format!("t{tid}")).and_then(tracing_tunnel::TracedValue::as_uint);
+            if got != Some(m as u128) && out.fails.is_empty() {
+                out.fails.push(format!("C19 storm: field t{tid} is {got:?} at the end, expected {m}"));
+            }
+        }
+    }
+    out.tags.push("storm".into());
+    out.tags.push("nontrivial".into());
+}
+
 fn thread_sites(rng: &mut Rng, tid: usize) -> Vec<Site> {
     let mut v = vec![];
     for i in 0..3 {
@@ -252,17 +361,37 @@ fn thread_sites(rng: &mut Rng, tid: usize) -> Vec<Site> {
 
 impl Suite for CapConc {
     fn gen(&self, rng: &mut Rng, tier: Tier, idx: usize, _focus: &str) -> Vec<String> {
+        if idx % 10 == 9 {
+            let (n, m) = (rng.range(2, 8), if tier == Tier::Quick { 2000 } else { 20000 });
+            return vec!["lfilter 0 all".into(), format!("storm {n} {m}")];
+        }
         let forced = idx % 2 == 0;
         let n_threads = if forced { rng.range(2, 3) } else { rng.range(2, 16) };
         let n_shared = rng.range(0, 2);
-        let mut sites = vec![Site { is_span: true, level: 2, name: "shared".into(), target: "app".into(), module_path: None, file: None, line: None, fields: vec![] }];
+        // the shared spans' call site has one field per thread; a thread records only its own
+        let mut sites = vec![Site { is_span: true, level: 2, name: "shared".into(), target: "app".into(), module_path: None, file: None, line: None, fields: (0..n_threads).map(|i| format!("t{i}")).collect() }];
         let mut lines = vec![];
         let mut work: Vec<(usize, Vec<POp>)> = vec![];
         for tid in 0..n_threads {
             let base = sites.len();
             sites.extend(thread_sites(rng, tid));
             let gcfg = GenCfg { max_ops: if forced { 8 } else if tier == Tier::Quick { 30 } else { 120 }, max_fields: 3, roots: true, clones: true, rich_values: false };
-            let ops = program::gen_thread_program(rng, &gcfg, &sites, base, n_shared);
+            let mut ops = program::gen_thread_program(rng, &gcfg, &sites, base, n_shared);
+            let hs = shared_handles(&ops, n_shared);
+            for op in &mut ops {
+                if let POp::Rec { s, vals } = op {
+                    if hs.get(*s).copied().flatten().is_some() {
+                        *vals = vec![(tid, format!("u64:{}", rng.below(1000)))];
+                    }
+                }
+            }
+            if !forced && n_shared > 0 && rng.chance(1, 2) {
+                // plenty of concurrent records on the shared spans
+                for _ in 0..rng.range(5, 40) {
+                    let pos = rng.below(ops.len() + 1);
+                    ops.insert(pos, POp::Rec { s: rng.below(n_shared), vals: vec![(tid, format!("u64:{}", rng.below(1000)))] });
+                }
+            }
             work.push((tid, ops));
         }
         for (k, s) in sites.iter().enumerate() {
@@ -294,6 +423,10 @@ impl Suite for CapConc {
             out.obs.push("bad-input".into());
             return out;
         };
+        if let Some((n, m)) = c.storm {
+            run_storm(&c, n, m, &mut out);
+            return out;
+        }
         match &c.sched {
             Some(sched) => {
                 for l in run_forced(&c, sched) {
